@@ -191,6 +191,21 @@ type ProgCase struct {
 
 func genProg(t *rapid.T) ProgCase {
 	want := gen.Program(t)
+	if rapid.IntRange(0, 199).Draw(t, "very_long_file") == 0 {
+		n := rapid.IntRange(1000, 5000).Draw(t, "extra_statements")
+		extra := make([]gen.Stmt, 0, n+len(want))
+		for i := 0; i < n; i++ {
+			switch i % 4 {
+			case 0:
+				extra = append(extra, gen.Stmt{Kind: "comment", Text: " note"})
+			case 1, 2:
+				extra = append(extra, gen.Stmt{Kind: "assign", Name: "V", ValKind: "string", ValText: "v"})
+			default:
+				extra = append(extra, gen.Stmt{Kind: "task", Name: "t", Cmds: []string{"echo hi"}})
+			}
+		}
+		want = gen.Normalize(append(extra, want...))
+	}
 	src := gen.Render(gen.RapidChooser{T: t}, want)
 	return ProgCase{Src: mkInput(src), Want: want}
 }
@@ -361,6 +376,19 @@ func TestKnownComments(t *testing.T) {
 				want[i].Doc += rapid.SampledFrom([]string{" caf\xe9", "\xe9", " \xff!", "\xc3"}).Draw(rt, "odd_doc_bytes")
 			}
 		}
+		if rapid.IntRange(0, 49).Draw(rt, "very_long_file") == 0 {
+			// nothing bounds the length of a spokfile: a few thousand more comments and variables in front
+			n := rapid.IntRange(1000, 5000).Draw(rt, "extra_statements")
+			extra := make([]gen.Stmt, 0, n+len(want))
+			for i := 0; i < n; i++ {
+				if i%3 == 2 {
+					extra = append(extra, gen.Stmt{Kind: "assign", Name: "V", ValKind: "string", ValText: "v"})
+				} else {
+					extra = append(extra, gen.Stmt{Kind: "comment", Text: fmt.Sprintf(" note %c", 'a'+rune(i%26))})
+				}
+			}
+			want = gen.Normalize(append(extra, want...))
+		}
 		x := gen.Render(gen.RapidChooser{T: rt}, want)
 		c := KnownCommentsCase{Src: mkInput(x)}
 		for _, w := range gen.Comments(want) {
@@ -368,8 +396,11 @@ func TestKnownComments(t *testing.T) {
 		}
 		return c
 	}, func(c KnownCommentsCase) *rp.Fail {
-		if s.WantSample() {
+		if s.WantSample() && len(c.Src.Text) < 4000 {
 			s.Sample(c.Src.Text)
+		}
+		if len(c.Want) > 500 {
+			s.Class("file_with_thousands_of_statements")
 		}
 		return checkKnownComments(s, c)
 	})
@@ -384,7 +415,7 @@ func TestProg(t *testing.T) {
 		if rapid.IntRange(0, 2).Draw(rt, "joined") == 0 {
 			return mkInput(gen.WithStrayBytes(rt, gen.RenderJoined(gen.RapidChooser{T: rt}, gen.Program(rt))))
 		}
-		return mkInput(gen.WithStrayBytes(rt, genProg(rt).Src.input()))
+		return mkInput(gen.WithManyStatements(rt, gen.WithStrayBytes(rt, genProg(rt).Src.input())))
 	}, func(c InputCase) *rp.Fail {
 		x := c.input()
 		s.Progress(0, []byte(x))
